@@ -55,6 +55,7 @@ macro_rules! dispatch {
             "C12" => $f(&props::c12::C12, $($arg),*),
             "C02" => $f(&props::c02::C02, $($arg),*),
             "C16" => $f(&props::c16::C16, $($arg),*),
+            "C11" => $f(&props::c11::C11, $($arg),*),
             _ => {
                 eprintln!("unknown property {}", $id);
                 2
